@@ -383,7 +383,7 @@ parser = opparse.Parser(
 )
 
 
-def _guarantee_call(parent, context, resolve=True):
+def _guarantee_call(parent, context, node, resolve=True):
     """Always returns a Call instance.
 
     If given an Element, return a Call with that Element as the function
@@ -393,8 +393,15 @@ def _guarantee_call(parent, context, resolve=True):
         name = VSymbol(parent.name) if parent.name and resolve else parent.name
         parent = parent.clone(capture=None, name=name).without_focus()
         parent = Call(element=parent, captures=(), immediate=False)
-    assert isinstance(parent, Call)
+    if not isinstance(parent, Call):
+        raise node.location.syntax_error("Expected a function, not a sequence")
     return parent
+
+
+def _not_a_sequence(x, node, what):
+    if isinstance(x, list):
+        raise node.location.syntax_error(f"Cannot apply {what} to a sequence")
+    return x
 
 
 class Evaluator:
@@ -438,11 +445,12 @@ def make_group(node, _1, element, _2, context):
 def make_nested_imm(node, parent, child, context):
     parent = evaluate(parent, context=context)
     child = evaluate(child, context=context)
-    parent = _guarantee_call(parent, context=context)
+    parent = _guarantee_call(parent, context=context, node=node)
     if isinstance(child, Element):
         child = child.with_focus()
         return parent.clone(captures=parent.captures + (child,))
     else:
+        _not_a_sequence(child, node, "'>'")
         return parent.clone(
             children=parent.children + (child.clone(immediate=False),),
         )
@@ -472,6 +480,10 @@ def make_class(node, element, tag, context):
         evaluate(element, context=context) if element else Element(name=None)
     )
     tag = value_evaluate(tag)
+    if not isinstance(element, Element):
+        raise node.location.syntax_error(
+            "A category can only be given to a variable or function name"
+        )
     return element.clone(category=tag)
 
 
@@ -501,7 +513,7 @@ def make_call_capture(node, fn, names, _, context):
     fn = evaluate(fn, context=context)
     names = evaluate(names, context="incall") if names else []
     names = names if isinstance(names, list) else [names]
-    fn = _guarantee_call(fn, context=context)
+    fn = _guarantee_call(fn, context=context, node=node)
     caps = tuple(name for name in names if isinstance(name, Element))
     children = tuple(name for name in names if isinstance(name, Call))
     return fn.clone(
@@ -525,6 +537,7 @@ def make_as(node, element, name, context):
     if isinstance(element, Element):
         return element.clone(capture=name.name, tags=element.tags | name.tags)
     else:
+        _not_a_sequence(element, node, "'as'")
         focus = context == "root"
         new_capture = Element(
             name="#value",
@@ -543,6 +556,7 @@ def make_equals(node, element, value, context, matchfn=False):
     if isinstance(element, Element):
         return element.clone(value=value, capture=element.capture)
     else:
+        _not_a_sequence(element, node, "'=' or '~'")
         new_element = Element(name="#value", value=value, capture="#value")
         return element.clone(captures=element.captures + (new_element,))
 
@@ -727,7 +741,8 @@ def vmake_call(node, fn, args, _, context):
 @value_evaluate.register_action("X = X")
 def vmake_keyword(node, key, value, context):
     key = value_evaluate(key)
-    assert isinstance(key, VSymbol)
+    if not isinstance(key, VSymbol):
+        raise node.location.syntax_error("A keyword must be a plain name")
     value = value_evaluate(value)
     return VKeyword(key, value)
 
@@ -738,7 +753,11 @@ def vmake_symbol(node, context):
 
 
 def parse(x):
-    return evaluate(parser(x))
+    ast = parser(x)
+    if ast is None:
+        loc = opparse.Location(x, "<string>", 0, len(x))
+        raise loc.syntax_error("Empty selector")
+    return evaluate(ast)
 
 
 def _find_eval_env(s, fr, skip):
